@@ -207,6 +207,7 @@ type vfC12Sim struct {
 	ackPending    bool
 	nonElicRun    int
 	spins         int
+	sameInstant   int
 
 	// application
 	unlimited bool
@@ -240,7 +241,7 @@ func vfC12LogUniform(r *rand.Rand, lo, hi float64) float64 {
 // vfC12Gen draws the parameters of trace idx. Kinds are stratified so that every quick run
 // contains each mechanism for each profile.
 func vfC12Gen(r *rand.Rand, idx int, quick bool) vfC12Params {
-	kinds := []string{"clean", "lowbw-lossy", "highbdp", "ackagg", "applimited", "burst-blackout", "gaps-reverse", "smallmax", "reorder", "random"}
+	kinds := []string{"clean", "lowbw-lossy", "highbdp", "ackagg", "applimited", "burst-blackout", "gaps-reverse", "smallmax", "reorder", "random", "longrtt"}
 	p := vfC12Params{
 		CaseID:  fmt.Sprintf("trace-%05d", idx),
 		Kind:    kinds[idx%len(kinds)],
@@ -307,6 +308,16 @@ func vfC12Gen(r *rand.Rand, idx int, quick bool) vfC12Params {
 		p.ReorderUs = int64(vfC12LogUniform(r, 200, 30000))
 		if r.Intn(2) == 0 {
 			p.AckJitUs = int64(vfC12LogUniform(r, 100, 20000))
+		}
+	case "longrtt":
+		// satellite / bufferbloated relay: the handshake already measured a multi-second RTT.
+		// Capacity stays low so that rtt x bandwidth remains far inside 63 bits.
+		p.RTTus = int64(vfC12LogUniform(r, 1_500_000, 5_000_000))
+		p.CapBps = mbit(0.3, 8)
+		p.DurMs = 60000 + int64(r.Intn(60000))
+		qBDP = vfC12LogUniform(r, 0.5, 4)
+		if r.Intn(2) == 0 {
+			p.LossPPM = 0
 		}
 	case "random":
 		p.CapBps = mbit(0.3, 1000)
@@ -969,17 +980,15 @@ func (s *vfC12Sim) run() {
 			return
 		}
 		if next <= s.now && !s.sendNow {
-			// a deadline in the past: the run loop spins; real time still advances a little
-			next = s.now + 1000
-			s.spins++
-			if s.spins > 200000 {
-				s.deadlock = fmt.Sprintf("t=+%.3fs: send loop spun 200000 times without being able to send (pacing deadline never in the future, budget never sufficient)", float64(s.now-s.t0)/1e9)
-				return
-			}
+			// a timer that is already due (e.g. a PTO computed from an old send time): fires now
+			next = s.now
 		}
 		s.sendNow = false
 		if next > s.now {
 			s.now = next
+			s.sameInstant = 0
+		} else if s.sameInstant++; s.sameInstant > 100000 {
+			panic("vfC12 simulator: 100000 iterations at one virtual instant (harness bug)")
 		}
 		for len(s.evs) > 0 && s.evs[0].t <= s.now {
 			e := heap.Pop(&s.evs).(vfC12Ev)
@@ -1010,9 +1019,17 @@ func (s *vfC12Sim) run() {
 		}
 		before := s.sends
 		s.triggerSending()
-		if s.sends != before {
-			s.spins = 0
+		if s.pacingDL != 0 && s.pacingDL <= s.now && !s.mon.Dead {
+			// Pacing limited, yet the pacing deadline is not in the future. On virtual time (as in a
+			// synctest bubble, and as a busy loop on a real clock) the run loop re-arms an expired timer
+			// at one and the same instant: no progress. The monitor's O5 flags the same state; this is
+			// the simulator's own backstop so that it can never be silent.
+			s.spins++
+			s.deadlock = fmt.Sprintf("t=+%.6fs: send loop cannot make progress at one virtual instant: pacing limited (HasPacingBudget=false) but the pacing deadline %d is not after now=%d; %d packets sent, bytes_in_flight=%d cwnd=%d",
+				float64(s.now-s.t0)/1e9, s.pacingDL, s.now, s.sends, s.bif, s.mon.GetCongestionWindow())
+			return
 		}
+		_ = before
 		if int(s.sends) >= s.p.PktBudget {
 			return
 		}
